@@ -132,6 +132,44 @@ def run(chk: core.Check, tier: str, seed: int) -> None:
                 except Exception as err:  # noqa: BLE001
                     rec["rout"], rec["cls"], rec["rlocs"] = "raise", type(err).__name__, []
                 recs.append(rec)
+    # nodes far down: data nested 1,200 / 3,000 deep under an environment whose limit allows it.  The DEEP node is asked first
+    # (location, path) - whatever a node computes lazily from its ancestors must not need the interpreter's stack.  (Too deep
+    # for the JSON reader on the TLC side: judged here against the location the harness built the document with.)
+    for depth in (1200, 3000):
+        for kind in ("arr", "obj", "mix"):
+            leaf = {"z": [7]}
+            doc, loc = leaf, []
+            for i in range(depth):
+                if kind == "arr" or (kind == "mix" and i % 2):
+                    doc, loc = [0, doc], [1] + loc
+                else:
+                    doc, loc = {"k'": doc, "b": 0}, ["k'"] + loc
+            denv = probes.make_env(jp, [], [], max_depth=depth + 10)
+            want_path = "$" + "".join(f"[{k}]" if isinstance(k, int) else "['k\\'']" for k in loc) + "['z']"
+            for how in ("find_one", "last of find", "finditer"):
+                problem = None
+                try:
+                    if how == "find_one":
+                        node = denv.find_one("$..z", doc)
+                    elif how == "last of find":
+                        node = denv.find("$..*", doc)[-2]          # the member z (its element 7 comes last)
+                    else:
+                        node = next(iter(denv.finditer("$..z", doc)))
+                    got_loc = list(node.location)
+                    got_path = node.path()
+                    if got_loc != loc + ["z"]:
+                        problem = "location of a deep node is not where the node is"
+                    elif got_path != want_path:
+                        problem = "path() of a deep node is not the normalized path of its location"
+                    elif node.value is not leaf["z"]:
+                        problem = "value of a deep node is not the object at its location"
+                except Exception as err:  # noqa: BLE001
+                    problem = f"asking a deep node for its location / path raised {type(err).__name__}"
+                chk.evaluations += 1
+                if problem:
+                    chk.violation({"clause": "C08 " + problem.split(" raised ")[0], "how": how},
+                                  {"depth": depth, "kind": kind, "how": how, "problem": problem})
+            del doc
     n_nodes = len(recs)
     for r in recs:
         chk.nontrivial.add((tuple(r["path"]), str(r["doc"])[:120]))
